@@ -2407,6 +2407,208 @@ def restore_function_names(tree, modname, table=None):
   return done
 
 
+def _jumps_at_loop_level(stmts):
+  for x in stmts:
+    if isinstance(x, (ast.Break, ast.Continue)):
+      return True
+    if isinstance(x, (ast.For, ast.While) + FN + (ast.ClassDef,)):
+      continue
+    for fld in ('body', 'orelse', 'finalbody'):
+      if _jumps_at_loop_level(getattr(x, fld, []) or []):
+        return True
+    for h in getattr(x, 'handlers', []) or []:
+      if _jumps_at_loop_level(h.body):
+        return True
+  return False
+
+
+def inline_generators(tree, modname, table=None):
+  """New generator helpers (module level, or nested in the function that uses them) that are consumed on the spot:
+       L.extend(G(a))                      ->  for y in G(a): L.append(y)
+       list(G(a)) / sep.join(G(a)) / ...   ->  tmp = []; for y in G(a): tmp.append(y); ... tmp ...
+       for T in G(a): BODY                 ->  the body of G with every `yield v` replaced by `T = v; BODY`"""
+  table = table if table is not None else _load_table()
+  ref_mod = table.get(modname)
+  if not ref_mod:
+    return 0
+  from .canon import _functions
+  quals = {id(fn): q for q, fn in _functions(tree, modname)}
+  inl = Inliner(tree, modname)
+  count = 0
+  tmpn = [0]
+
+  owner_class = {}
+  for cst in tree.body:
+    if isinstance(cst, ast.ClassDef):
+      for m_ in cst.body:
+        if isinstance(m_, ast.FunctionDef):
+          owner_class[id(m_)] = cst
+
+  def generator_def(call, owner):
+    """FunctionDef of the new generator helper that `call` calls, or None."""
+    if isinstance(call, ast.Call) and isinstance(call.func, ast.Attribute) and isinstance(call.func.value, ast.Name) and call.func.value.id == 'self' \
+        and owner is not None and id(owner) in owner_class:
+      name = call.func.attr
+      cands = [m_ for m_ in owner_class[id(owner)].body if isinstance(m_, ast.FunctionDef) and m_.name == name]
+      return _pick(cands, name)
+    if not (isinstance(call, ast.Call) and isinstance(call.func, ast.Name)):
+      return None
+    name = call.func.id
+    cands = []
+    if owner is not None:
+      for st in ast.walk(owner):
+        if isinstance(st, ast.FunctionDef) and st is not owner and st.name == name:
+          cands.append(st)
+    for st in tree.body:
+      if isinstance(st, ast.FunctionDef) and st.name == name:
+        cands.append(st)
+    return _pick(cands, name)
+
+  def _pick(cands, name):
+    for g in cands:
+      q = quals.get(id(g))
+      if q is None or q in ref_mod or [ast.unparse(d) for d in g.decorator_list] not in ([], ['staticmethod']):
+        continue
+      if not any(isinstance(n, (ast.Yield, ast.YieldFrom)) for n in _own_walk(g)):
+        continue
+      # yields only as statements; `return` only bare and last
+      ok = True
+      for n in _own_walk(g):
+        if isinstance(n, (ast.Yield, ast.YieldFrom)):
+          ok = ok and any(isinstance(p, ast.Expr) and p.value is n for p in _own_walk(g))
+        if isinstance(n, ast.Return) and (n.value is not None or n is not g.body[-1]):
+          ok = False
+        if isinstance(n, ast.Call) and isinstance(n.func, ast.Name) and n.func.id == name:
+          ok = False
+      if ok and not g.args.vararg and not g.args.kwarg:
+        return g
+    return None
+
+  def owners():
+    for q, fn in _functions(tree, modname):
+      yield fn
+
+  changed = True
+  rounds = 0
+  while changed and rounds < 4:
+    changed = False
+    rounds += 1
+    for owner in list(owners()):
+      for _fn, body in _scoped_bodies(owner):
+        if _fn is not None and _fn is not owner:
+          continue
+        i = 0
+        while i < len(body):
+          st = body[i]
+          # A1: L.extend(G(...))
+          if isinstance(st, ast.Expr) and isinstance(st.value, ast.Call) and isinstance(st.value.func, ast.Attribute) and st.value.func.attr == 'extend' \
+              and len(st.value.args) == 1 and generator_def(st.value.args[0], owner) is not None and isinstance(st.value.func.value, ast.Name):
+            tmpn[0] += 1
+            y = '__y%d' % tmpn[0]
+            app = ast.Expr(value=ast.Call(func=ast.Attribute(value=st.value.func.value, attr='append', ctx=ast.Load()),
+                                          args=[ast.Name(id=y, ctx=ast.Load())], keywords=[]))
+            new = ast.For(target=ast.Name(id=y, ctx=ast.Store()), iter=st.value.args[0], body=[app], orelse=[])
+            ast.copy_location(new, st)
+            ast.fix_missing_locations(new)
+            body[i] = new
+            changed = True
+            count += 1
+            continue
+          # A2: a consuming call list(G()) / tuple / dict / set / sorted / S.join(G()) inside a simple statement
+          if isinstance(st, (ast.Return, ast.Assign, ast.Expr, ast.AugAssign)):
+            hit = None
+            for n in ast.walk(st):
+              if isinstance(n, ast.Call) and len(n.args) >= 1 and generator_def(n.args[0], owner) is not None:
+                fnm = ast.unparse(n.func)
+                if fnm in ('list', 'tuple', 'dict', 'set', 'sorted', 'frozenset') or (isinstance(n.func, ast.Attribute) and n.func.attr == 'join'):
+                  hit = n
+                  break
+            if hit is not None:
+              tmpn[0] += 1
+              t = '__g%d' % tmpn[0]
+              y = '__y%d' % tmpn[0]
+              init = ast.Assign(targets=[ast.Name(id=t, ctx=ast.Store())], value=ast.List(elts=[], ctx=ast.Load()))
+              app = ast.Expr(value=ast.Call(func=ast.Attribute(value=ast.Name(id=t, ctx=ast.Load()), attr='append', ctx=ast.Load()),
+                                            args=[ast.Name(id=y, ctx=ast.Load())], keywords=[]))
+              loop = ast.For(target=ast.Name(id=y, ctx=ast.Store()), iter=hit.args[0], body=[app], orelse=[])
+              hit.args[0] = ast.Name(id=t, ctx=ast.Load())
+              for x_ in (init, loop):
+                ast.copy_location(x_, st)
+                ast.fix_missing_locations(x_)
+              ast.fix_missing_locations(st)
+              body[i:i] = [init, loop]
+              changed = True
+              count += 1
+              continue
+          # B: for T in G(...): BODY
+          if isinstance(st, ast.For) and not st.orelse and generator_def(st.iter, owner) is not None and not _jumps_at_loop_level(st.body):
+            g = generator_def(st.iter, owner)
+            caller_names = _all_names(owner)
+            selfexpr = st.iter.func.value if isinstance(st.iter.func, ast.Attribute) else None
+            b = inl._bind(g, st.iter, selfexpr, caller_names)
+            if b is not None:
+              mapping, pre, renames = b
+              gbody = copy.deepcopy(g.body)
+              if gbody and isinstance(gbody[0], ast.Expr) and isinstance(gbody[0].value, ast.Constant) and isinstance(gbody[0].value.value, str):
+                gbody = gbody[1:]
+              if gbody and isinstance(gbody[-1], ast.Return):
+                gbody = gbody[:-1]
+              sub = _Subst(mapping, renames)
+              gbody = [sub.visit(x) for x in gbody]
+
+              def repl(stmts):
+                out = []
+                for x in stmts:
+                  if isinstance(x, ast.Expr) and isinstance(x.value, ast.Yield):
+                    v = x.value.value if x.value.value is not None else ast.Constant(value=None)
+                    out.append(ast.Assign(targets=[copy.deepcopy(st.target)], value=v))
+                    out.extend(copy.deepcopy(st.body))
+                    continue
+                  if isinstance(x, ast.Expr) and isinstance(x.value, ast.YieldFrom):
+                    out.append(ast.For(target=copy.deepcopy(st.target), iter=x.value.value, body=copy.deepcopy(st.body), orelse=[]))
+                    continue
+                  if not isinstance(x, FN + (ast.ClassDef,)):
+                    for fld in ('body', 'orelse', 'finalbody'):
+                      bb = getattr(x, fld, None)
+                      if isinstance(bb, list) and bb and isinstance(bb[0], ast.stmt):
+                        setattr(x, fld, repl(bb))
+                    for h in getattr(x, 'handlers', []) or []:
+                      h.body = repl(h.body)
+                  out.append(x)
+                return out
+              new = pre + repl(gbody)
+              for x_ in new:
+                ast.copy_location(x_, st)
+                for y_ in ast.walk(x_):
+                  if not hasattr(y_, 'lineno'):
+                    ast.copy_location(y_, st)
+                ast.fix_missing_locations(x_)
+              body[i:i + 1] = new or [ast.copy_location(ast.Pass(), st)]
+              changed = True
+              count += 1
+              continue
+          i += 1
+  if count:
+    # generator helpers that are no longer referenced
+    for owner in list(owners()):
+      for _fn, body in _scoped_bodies(owner):
+        for st in list(body):
+          if isinstance(st, ast.FunctionDef) and quals.get(id(st)) not in ref_mod and quals.get(id(st)) is not None \
+              and any(isinstance(n, (ast.Yield, ast.YieldFrom)) for n in _own_walk(st)):
+            own = {id(n) for n in ast.walk(st)}
+            if not any(isinstance(n, ast.Name) and n.id == st.name and id(n) not in own for n in ast.walk(tree)):
+              body.remove(st)
+    for cst in tree.body:
+      if isinstance(cst, ast.ClassDef):
+        for m_ in list(cst.body):
+          if isinstance(m_, ast.FunctionDef) and quals.get(id(m_)) is not None and quals.get(id(m_)) not in ref_mod \
+              and any(isinstance(n, (ast.Yield, ast.YieldFrom)) for n in _own_walk(m_)) \
+              and not any(isinstance(n, ast.Attribute) and n.attr == m_.name for n in ast.walk(tree)):
+            cst.body.remove(m_)
+    inl._drop_dead_helpers()
+  return count
+
+
 def lifted_candidates(tree, modname, table=None):
   """Names of new module-level functions that look like a reference closure that is missing now."""
   table = table if table is not None else _load_table()
@@ -2531,6 +2733,7 @@ def normalize(tree, modname):
     ast.fix_missing_locations(tree)
     return 0, b
   a = restore_function_names(tree, modname)
+  a += inline_generators(tree, modname)
   a += unlift(tree, modname)
   cands = lifted_candidates(tree, modname)
   if cands:
